@@ -516,28 +516,86 @@ def small_variant(anno, genome, tx_id: str, tx_pos: int, kind: str, size: int,
                'GENE_SYMBOL': gene_model.gene_name})
 
 
+def nested_variants(anno, genome, tx_id: str, rec, rng: random.Random, n: int,
+                    kinds=('SNV', 'SNV', 'INS', 'DEL')):
+    """small records INSIDE the stretch an alternative-splicing Insertion / Substitution record
+    inserts (its donor range in gene coordinates — intronic for the transcript), at least 3 nt
+    from its ends and 3 nt apart: they can only show in a peptide together with `rec`."""
+    _imports()
+    from moPepGen.seqvar.VariantRecord import VariantRecord
+    from moPepGen.SeqFeature import FeatureLocation
+    if rec.type not in ('Insertion', 'Substitution'):
+        return []
+    tx_model = anno.transcripts[tx_id]
+    gene_id = tx_model.transcript.gene_id
+    gene_model = anno.genes[gene_id]
+    chrom = gene_model.chrom
+    gene_seq = str(gene_model.get_gene_sequence(genome[chrom]).seq)
+    ds, de = int(rec.get_donor_start()), int(rec.get_donor_end())
+    out, used = [], []
+    for _ in range(n * 6):
+        if len(out) >= n or de - ds < 12:
+            break
+        kind = rng.choice(list(kinds))
+        size = rng.randint(1, 3)
+        span = 1 if kind != 'DEL' else size + 1
+        start = rng.randrange(ds + 3, de - 3 - span)
+        end = start + span
+        if any(not (end + 3 <= a or b + 3 <= start) for a, b in used):
+            continue
+        ref = gene_seq[start:end]
+        if kind == 'SNV':
+            alt, vtype = rng.choice([c for c in 'ACGT' if c != ref]), 'SNV'
+        elif kind == 'INS':
+            alt, vtype = ref + ''.join(rng.choice('ACGT') for _ in range(size)), 'INDEL'
+        else:
+            alt, vtype = ref[0], 'INDEL'
+        g0 = anno.coordinate_gene_to_genomic(start, gene_id)
+        out.append(VariantRecord(
+            location=FeatureLocation(start=start, end=end, seqname=gene_id),
+            ref=ref, alt=alt, _type=vtype, _id=f'{gene_id}-{start}-{ref}-{alt}',
+            attrs={'TRANSCRIPT_ID': tx_id, 'GENOMIC_POSITION': f'{chrom}-{g0}:{g0 + 1}',
+                   'GENE_SYMBOL': gene_model.gene_name}))
+        used.append((start, end))
+    return out
+
+
 def dense_variants(anno, genome, tx_id: str, rng: random.Random, n: int, max_size: int = 4,
-                   snv_frac: float = 0.55, window: int = 40, edge_frac: float = 0.25):
+                   snv_frac: float = 0.55, window: int = 40, edge_frac: float = 0.25,
+                   special: Optional[str] = None):
     """n small variants of one transcript, clustered: a focus (start codon, stop codon,
     a Sec codon, an exon junction, or a random point) is drawn and the variants fall in a
     window around it, so adjacent / overlapping / frame-restoring combinations and variants
-    on special codons are frequent rather than rare."""
+    on special codons are frequent rather than rare.
+    `special` in ('sec', 'start', 'stop', 'junction'): ALL variants cluster around one codon of
+    that kind (when the transcript has one)."""
     tx_model = anno.transcripts[tx_id]
     tx_seq = tx_model.get_transcript_sequence(genome[tx_model.transcript.chrom])
     tx_len = len(tx_seq.seq)
     foci = [rng.randrange(tx_len)]
+    kinds = {'sec': [], 'start': [], 'stop': [], 'junction': []}
     if tx_seq.orf:
         foci += [int(tx_seq.orf.start) + 3, int(tx_seq.orf.end), int(tx_seq.orf.start) + rng.randrange(
             3, max(4, int(tx_seq.orf.end) - int(tx_seq.orf.start)))]
+        kinds['start'].append(int(tx_seq.orf.start) + 3)
+        kinds['stop'].append(int(tx_seq.orf.end))
     for s in tx_seq.selenocysteine:
         foci.append(int(s.start))
+        kinds['sec'].append(int(s.start))
     acc = 0
     for ex in (tx_model.exon if tx_model.transcript.strand == 1 else tx_model.exon[::-1])[:-1]:
         acc += len(ex.location)
         foci.append(acc)
+        kinds['junction'].append(acc)
+    if special and kinds.get(special):
+        c0 = rng.choice(kinds[special])
+        foci = [foci[0], c0]
     out, seen = [], set()
     nfoci = rng.choice([1, 1, 2])
     chosen = [rng.choice(foci) for _ in range(nfoci)]
+    if special and len(foci) == 2:
+        chosen = [foci[1]]
+        edge_frac = max(edge_frac, 0.5)
     # positions whose records END or START exactly on the edge of a special codon / junction
     # (last base before a Sec or stop codon, first base behind it, …): conditions of the form
     # `end <= start_of_codon` vs `<` only show on these
